@@ -167,7 +167,9 @@ func c15CanonMsg(m string) string {
 	case strings.HasPrefix(m, "hook returned"):
 		return "count-mismatch"
 	}
-	return "own:" + strings.ReplaceAll(m, " ", "_")
+	// a message is relayed byte for byte, also when it is made of line breaks or tabs only: shown escaped,
+	// the way the script item spells it inside the JSON string it writes
+	return "own:" + strings.NewReplacer(" ", "_", "\n", `\n`, "\r", `\r`, "\t", `\t`).Replace(m)
 }
 
 // how long one stage of a request in flight (at most one hook run) may take before the case is given
@@ -655,6 +657,11 @@ func c15E2ECorpus(r *Run) {
 		c15RunE2E(r, c, c15E2E{Rules: lin, Owner: []int{0, 1, 1}, NHooks: 2, From: "g.io/v1", Desired: "g.io/v3", NObjs: 2,
 			Script: []string{"m0:my-own-message", "k2"}})
 	})
+	r.One(50, func(c *Case, _ *Rng) {
+		c.Desc = "corpus: the hook of step 1 of 2 answers with a failedMessage that is one line break: Failed with that message, step 2 is not run"
+		c15RunE2E(r, c, c15E2E{Rules: lin, Owner: []int{0, 1, 1}, NHooks: 2, From: "g.io/v1", Desired: "g.io/v3", NObjs: 2,
+			Script: []string{`m2:\n`, "k2"}})
+	})
 	r.One(11, func(c *Case, _ *Rng) {
 		c.Desc = "corpus: two objects requested, the hook returns one converted object"
 		c15RunE2E(r, c, c15E2E{Rules: lin, Owner: []int{0, 1, 1}, NHooks: 2, From: "g.io/v2", Desired: "g.io/v3", NObjs: 2,
@@ -902,6 +909,12 @@ func c15E2ERandom(r *Run) {
 							// the hook's own message is relayed verbatim: also when it looks like a format string
 							it = fmt.Sprintf("m%d:own-message-%d%s", PickOne(rng, []int{0, e.NObjs}), rng.Intn(90),
 								PickOne(rng, []string{"", "", "-100%", "-%s", "-%d-of-%d", "-%v%%", "-%!x", "-{{.}}"}))
+							if rng.Chance(20) {
+								// ... and when it is white space only or ends / begins with a line break (JSON escapes,
+								// spelled as in the response file): a non-empty message is a failure whatever it looks like
+								it = fmt.Sprintf("m%d:%s", PickOne(rng, []int{0, e.NObjs}),
+									PickOne(rng, []string{`\n`, `\r\n`, `\n\n`, `\t`, `msg\n`, `\nmsg`, `\n\t\n`}))
+							}
 						}
 					}
 					e.Script = append(e.Script, it)
